@@ -298,6 +298,14 @@ func checkWalker(ctx *Ctx, fn *ssa.Function, calls []*ssa.Call, apiName string) 
 		fail("the closure does not hand its own parameter to " + apiName)
 		return
 	}
+	for _, blk := range fn.Blocks {
+		if ret, ok := blk.Instrs[len(blk.Instrs)-1].(*ssa.Return); ok {
+			if len(ret.Results) != 1 || ret.Results[0] != ssa.Value(call) {
+				fail("the closure does not return the error of " + apiName)
+				return
+			}
+		}
+	}
 	// ... the closure is made once, in its parent, and passed to a function that calls it per field
 	var site *ssa.Call
 	argIdx := -1
@@ -546,7 +554,77 @@ func checkWalkerLoop(ctx *Ctx, key, pos string, fn *ssa.Function, call *ssa.Call
 			}
 		}
 	}
-	R.Pass("walkers", key, pos, fmt.Sprintf("i=0..NumField()-1, skip iff !CanInterface, %s(_, LittleEndian, Field(i).Addr().Interface())", apiName))
+	// the error of the per-field call: a failure leaves the loop with a non-nil error, success goes on to the next field
+	if msg := walkerErrorHandling(L, call); msg != "" {
+		fail(msg)
+		return
+	}
+	R.Pass("walkers", key, pos, fmt.Sprintf("i=0..NumField()-1, skip iff !CanInterface, %s(_, LittleEndian, Field(i).Addr().Interface()); an error ends the walk and is returned", apiName))
+}
+
+// walkerErrorHandling: the error result of call is tested against nil; on the non-nil edge the function returns
+// something that is not the constant nil, on the nil edge the loop continues.
+func walkerErrorHandling(L *natLoop, call *ssa.Call) string {
+	var tests []*ssa.BinOp
+	flow := []ssa.Value{call}
+	for i := 0; i < len(flow); i++ {
+		refs := flow[i].Referrers()
+		if refs == nil {
+			continue
+		}
+		for _, r := range *refs {
+			switch x := r.(type) {
+			case *ssa.BinOp:
+				if c, ok := x.Y.(*ssa.Const); ok && c.Value == nil && (x.Op == token.NEQ || x.Op == token.EQL) {
+					tests = append(tests, x)
+				}
+			case *ssa.Phi:
+				dup := false
+				for _, f := range flow {
+					if f == ssa.Value(x) {
+						dup = true
+					}
+				}
+				if !dup && L.Body[x.Block()] {
+					flow = append(flow, x)
+				}
+			}
+		}
+	}
+	if len(tests) != 1 {
+		return fmt.Sprintf("the error of the per-field call is tested against nil %d times inside the walk, want once", len(tests))
+	}
+	t := tests[0]
+	var iff *ssa.If
+	for _, r := range *t.Referrers() {
+		if i, ok := r.(*ssa.If); ok {
+			iff = i
+		}
+	}
+	if iff == nil {
+		return "the nil test of the per-field error does not decide a branch"
+	}
+	fail, cont := iff.Block().Succs[0], iff.Block().Succs[1]
+	if t.Op == token.EQL {
+		fail, cont = cont, fail
+	}
+	for n := 0; n < 8 && len(fail.Instrs) == 1 && len(fail.Succs) == 1; n++ {
+		fail = fail.Succs[0]
+	}
+	ret, ok := fail.Instrs[len(fail.Instrs)-1].(*ssa.Return)
+	if !ok || L.Body[fail] {
+		return "a failing field does not end the walk with a return"
+	}
+	if len(ret.Results) == 0 {
+		return "a failing field returns nothing"
+	}
+	if c, isC := ret.Results[len(ret.Results)-1].(*ssa.Const); isC && c.Value == nil {
+		return "a failing field returns nil: the error is swallowed"
+	}
+	if !L.Body[cont] {
+		return "after a field was transferred successfully the walk does not continue"
+	}
+	return ""
 }
 
 func checkVersion(ctx *Ctx, hn *types.Named, hs *types.Struct, leaves []leafField, titleOff int) {
